@@ -82,6 +82,8 @@ func c12Run(sc c12Scenario, prefix []int, sigs []string, ready *grpc.ClientConn)
 	var peerHBTS []time.Time     // recovery time stamps in those answers
 	var assocTS time.Time
 	var probeOK bool
+	var mSeqs []uint32                                            // sequence numbers of the session requests the peer sent in reaction 'M'
+	sessResp := map[uint32]bool{}                                 // sequence numbers of the session responses the peer received
 	horizon := 40*time.Second + time.Duration(sc.Retries)*c12Resp // every retransmission of the largest retry count fits
 	vsched.S = nil
 	u, f := schedUPF(true, 100000*time.Second, ready)
@@ -143,6 +145,9 @@ func c12Run(sc c12Scenario, prefix []int, sigs []string, ready *grpc.ClientConn)
 				case message.MsgTypeAssociationSetupResponse:
 					assocTS = d.RecTS
 					continue
+				case message.MsgTypeSessionModificationResponse, message.MsgTypeSessionDeletionResponse:
+					sessResp[d.Seq] = true
+					continue
 				case message.MsgTypeHeartbeatRequest, message.MsgTypeAssociationSetupRequest:
 				default:
 					continue
@@ -166,6 +171,15 @@ func c12Run(sc c12Scenario, prefix []int, sigs []string, ready *grpc.ClientConn)
 					peer.Send(c10N4+":8805", respond(d, d.Seq))
 				case 'L':
 					lateAnswer = respond(d, d.Seq)
+				case 'M':
+					// no answer; instead a session request of the peer's own that happens to carry the same sequence number
+					// (the two directions number their requests independently): it is a request and gets its response
+					mSeqs = append(mSeqs, d.Seq)
+					if sessSEID != 0 {
+						peer.Send(c10N4+":8805", (&sReq{Kind: kMod, SEID: sessSEID, Seq: d.Seq}).build(c).marshal())
+					} else {
+						peer.Send(c10N4+":8805", (&sReq{Kind: kDel, SEID: 0xDEAD, Seq: d.Seq}).build(c).marshal())
+					}
 				case 'C', 'I', 'R':
 					peer.Send(c10N4+":8805", respondWithout(d, strings.IndexByte("CIR", act)))
 				}
@@ -349,6 +363,11 @@ func c12Run(sc c12Scenario, prefix []int, sigs []string, ready *grpc.ClientConn)
 			}
 		}
 	}
+	for _, q := range mSeqs {
+		if !sessResp[q] && !dead {
+			bad = append(bad, fmt.Sprintf("session-request-unanswered: the peer's session request with sequence number %d (equal to that of the agent's outstanding request) got no response", q))
+		}
+	}
 	if !probeOK {
 		bad = append(bad, "reader-blocked: a Heartbeat Request sent after the exchange was not answered although the association is alive")
 	}
@@ -381,10 +400,10 @@ func TestVerifC12(t *testing.T) {
 	vQuietLoggers()
 	res := vNewResult()
 	defer res.write(t)
-	res.Rule = "scripted peer: every reaction pattern (silent / answer / wrong sequence number / answer twice / answer only when the next transmission arrives) to the first T transmissions of agent-originated requests " +
+	res.Rule = "scripted peer: every reaction pattern (silent / answer / wrong sequence number / answer twice / answer only when the next transmission arrives; and, separately, silent + a session request of the peer's own with the same sequence number) to the first T transmissions of agent-originated requests " +
 		"(heartbeats on a CP-initiated association; Association Setup towards a configured peer), max_req_retries in {1,2} (thorough: 3), T = 2(N+1) (quick: N=2 with T=4), and the ends of the range {0, 254, 255} with the peer silent for N, N+1 or N+3 transmissions, peer's own Heartbeat Request at {none, before association, " +
 		"3 s, 6 s, 11 s}; canonical schedule for all, all schedules with <= 1 (quick) / 2 (thorough) deviations for a representative subset; plus the connectivity/feature sub-claim over datapath up/down x " +
-		"UE-IP allocation x end marker x DNN. distinct_nontrivial = executions"
+		"UE-IP allocation x end marker x DNN, with Session Establishment Requests among the steps (refused, and nothing written, while no setup was accepted). distinct_nontrivial = executions"
 	res.Assumptions = []string{"virtual clock: spacing is exact under the canonical schedule and only bounded from below under explored schedules", "after its script the peer answers every transmission"}
 	ready := fbFreshReadyConn()
 	if rc := vReplayCase(); rc != nil {
@@ -430,6 +449,10 @@ func TestVerifC12(t *testing.T) {
 			}
 			// responses that lack a mandatory IE (C Cause, I Node ID, R Recovery Time Stamp): crash-freedom and liveness of the reader
 			for _, sc := range []string{"C", "I", "R", "SC", "SI", "SR", "CA", "WC"} {
+				scs = append(scs, c12Scenario{Mode: mode, Retries: n, Script: sc})
+			}
+			// the peer reacts with a session request of its own that carries the sequence number of the agent's request
+			for _, sc := range []string{"M", "SM", "MS", "MM"} {
 				scs = append(scs, c12Scenario{Mode: mode, Retries: n, Script: sc})
 			}
 			for _, ph := range []string{"early", "t3", "t6", "t11"} {
@@ -527,14 +550,14 @@ func TestVerifC12(t *testing.T) {
 // advertises F-TEID allocation always, UE IP allocation and end markers iff enabled.
 func c12Features(res *vResult) {
 	// every sequence of up to 4 steps over {Association Setup (same Recovery Time Stamp), Association Setup of a restarted
-	// peer (newer time stamp), Association Setup from another node id, datapath connectivity toggles}, from both initial
+	// peer (newer time stamp), Association Setup from another node id, datapath connectivity toggles, Session Establishment}, from both initial
 	// connectivity states: each Association Setup is accepted exactly when the datapath is connected at that moment
 	var seqs []string
 	frontier := []string{""}
 	for l := 1; l <= 4; l++ {
 		var next []string
 		for _, p := range frontier {
-			for _, a := range "ABNT" {
+			for _, a := range "ABNTE" {
 				next = append(next, p+string(a))
 			}
 		}
@@ -667,6 +690,7 @@ func c12FeatureSeq(res *vResult, cfg vCfg, sq string) {
 		_, _, ready = fbFrontEnd()
 	}
 	cs := schedCase{Scenario: map[string]any{"mode": "features", "cfg": cfg, "seq": sq}}
+	associated := false // some Association Setup of this sequence was accepted
 	for i, op := range sq {
 		if op == 'T' {
 			connected = !connected
@@ -677,6 +701,48 @@ func c12FeatureSeq(res *vResult, cfg vCfg, sq string) {
 				}
 			} else {
 				in.p4.up4.setConnectedStatus(connected)
+			}
+			continue
+		}
+		if op == 'E' && cfg.P4 && cfg.Down {
+			// (a UP4 instance that starts disconnected has never run its initialisation; the toggle of this harness only flips
+			// the connectivity flag, so an establishment "after the switch came up" would meet uninitialised pools - an artefact)
+			continue
+		}
+		if op == 'E' {
+			// a Session Establishment Request: as long as no Association Setup was accepted there is no association, the
+			// request is refused and nothing is written to the datapath (a refused setup must not leave a half association)
+			p, f, q := rsBasic(fmt.Sprintf("16.0.0.%d", i+1), uint32(0x100+i), "11.1.1.129")
+			n0 := 0
+			if in.fb != nil {
+				n0 = in.fb.ncommands()
+			} else {
+				n0 = in.p4.nwrites()
+			}
+			out, fr, msg := in.inject(0, (&sReq{Kind: kEst, CPSEID: uint64(0x50 + i), Seq: uint32(5 + i), CreatePDR: p, CreateFAR: f, CreateQER: q}).build(c).marshal())
+			res.Evaluations++
+			res.Distinct++
+			n1 := 0
+			if in.fb != nil {
+				n1 = in.fb.ncommands()
+			} else {
+				n1 = in.p4.nwrites()
+			}
+			if fr != "" {
+				res.finding("c12:panic:"+fr, msg, cs)
+				return
+			}
+			if !associated {
+				acc := false
+				for _, b := range out {
+					if d, err := vDecode(b); err == nil && d.Type == message.MsgTypeSessionEstablishmentResponse && d.Cause == ie.CauseRequestAccepted {
+						acc = true
+					}
+				}
+				if acc || n1 != n0 {
+					res.finding("c12:session-without-association", fmt.Sprintf("no Association Setup was accepted so far, yet the Session Establishment Request was accepted=%v and %d datapath command(s) were issued (sequence %s, step %d; E = establishment)", acc, n1-n0, sq, i), cs)
+					return
+				}
 			}
 			continue
 		}
@@ -704,6 +770,9 @@ func c12FeatureSeq(res *vResult, cfg vCfg, sq string) {
 			return
 		}
 		accepted := d.Cause == ie.CauseRequestAccepted
+		if accepted {
+			associated = true
+		}
 		if accepted != connected {
 			kind := "first"
 			if i > 0 {
